@@ -3,6 +3,7 @@ package c15
 import (
 	"encoding/base64"
 	"fmt"
+	"math/big"
 	"strconv"
 	"strings"
 
@@ -13,6 +14,12 @@ func b64(b []byte) string { return base64.StdEncoding.EncodeToString(b) }
 
 func dgood(seq int, b []byte) rop {
 	return rop{kind: 'd', known: true, seq: seq, payload: b64(b), cls: "good"}
+}
+
+// seqAttr: a data packet for the stream whose seq attribute is the given text.
+func seqAttr(text, payload string) rop {
+	n, _ := strconv.Atoi(text)
+	return rop{kind: 'd', known: true, seq: n, attr: text, raw: true, payload: payload, cls: "seqattr"}
 }
 
 // corpus of receiver histories (seq numbers are absolute).
@@ -50,6 +57,16 @@ func recvCorpus() []struct {
 		{0, []rop{dgood(0, []byte("0123456789abcdefghijklmnopqrstuvwxyz")), {kind: 'c'}, rd(1), rd(7), rd(1), rd(7), rd(7), rd(64), rd(1)}},
 		{0, []rop{dgood(0, []byte("0123456789abcdefghij")), dgood(1, []byte("klmnopqrstuvwxyz")), {kind: 'C'}, rd(7), rd(7), rd(1), rd(64), rd(64)}},
 		{0, []rop{dgood(0, []byte("abcdefgh")), rd(1), {kind: 'c'}, rd(1), rd(1), rd(64), rd(64)}},
+		// the seq attribute as text: numbers outside 0..65535 that are congruent to the expected one,
+		// numerals with leading zeros, attributes that are no numeral at all
+		{0, []rop{dgood(0, []byte("AAA")), seqAttr("65537", "ZXZpbA=="), dgood(1, []byte("BBB")), rd(16)}},
+		{0, []rop{seqAttr("65536", "ZXZpbA=="), dgood(0, []byte("AAA")), seqAttr("4294967297", "ZXZpbA=="), seqAttr("18446744073709551617", "ZXZpbA=="), dgood(1, []byte("BBB")), rd(16)}},
+		{0, []rop{seqAttr("-1", "QUJD"), seqAttr("", "QUJD"), seqAttr("zero", "QUJD"), seqAttr("0x0", "QUJD"), seqAttr("0.0", "QUJD"), dgood(0, []byte("A")), seqAttr("01", "Qg=="), seqAttr("1e0", "QUJD"), rd(8)}},
+		// packets of the peer that arrive while the local Close waits for the answer to its <close/>
+		// (what the peer had written and flushes when it handles the request): delivered, then EOF
+		{0, []rop{dgood(0, []byte("ABC")), {kind: 'C', tail: []rop{dgood(1, []byte("last words"))}}, dgood(2, []byte("late")), rd(64), rd(8)}},
+		{0, []rop{{kind: 'C', tail: []rop{dgood(0, []byte("a")), dgood(1, []byte("bc")), bad(2, "REVG!!!!", "corrupt"), dgood(2, []byte("def"))}}, rd(2), rd(64), rd(8)}},
+		{8, []rop{dgood(0, []byte("ABCDEF")), {kind: 'w', data: []byte("xy")}, {kind: 'C', tail: []rop{dgood(1, []byte("GH")), dgood(2, []byte("I")), dgood(2, []byte("J"))}}, rd(4), rd(64), rd(4)}},
 		// both directions at once on one connection
 		{0, []rop{{kind: 'w', data: []byte("hello")}, dgood(0, []byte("ABC")), {kind: 'w', data: []byte("wo")}, bad(1, "REVG!!!!", "corrupt"), {kind: 'w', data: []byte("rld!")}, dgood(1, []byte("DEF")), rd(16), {kind: 'C'}}},
 		{8, []rop{dgood(0, []byte("ABCDEF")), {kind: 'w', data: []byte("xy")}, {kind: 'c'}, {kind: 'w', data: []byte("late")}, rd(16), rd(4)}},
@@ -80,11 +97,46 @@ func randRecv(rnd *common.Rand) (int, []rop) {
 			ops = append(ops, rop{kind: 'd', known: true, seq: seq, payload: []string{"QUJ", "Q", "QUJDRA", "QUJDR"}[rnd.Intn(4)], cls: "truncated"})
 		case k == 9:
 			ops = append(ops, rop{kind: 'd', known: true, seq: seq + 1 + rnd.Intn(3), payload: "QUJD", cls: "wrongseq"})
+		case k == 10 && rnd.Chance(1, 2):
+			// the seq attribute as text: the expected number plus a multiple of 65536 (also beyond 32
+			// and 64 bits), other numbers above 65535, leading zeros, text that is no numeral
+			var a string
+			switch rnd.Intn(6) {
+			case 0:
+				a = strconv.Itoa(seq + 65536*(1+rnd.Intn(3)))
+			case 1:
+				a = new(big.Int).Add(big.NewInt(int64(seq)), new(big.Int).Lsh(big.NewInt(1), uint([]int{16, 17, 32, 33, 64}[rnd.Intn(5)]))).String()
+			case 2:
+				a = strconv.Itoa(65536 + rnd.Intn(200000))
+			case 3:
+				a = strings.Repeat("0", 1+rnd.Intn(3)) + strconv.Itoa(seq+rnd.Intn(2))
+			case 4:
+				a = []string{"", "-1", "-0", "0x0", "1.0", "1e0", "seq", "0 0", "٠"}[rnd.Intn(9)]
+			default:
+				a = "-" + strconv.Itoa(65536-seq)
+			}
+			ops = append(ops, seqAttr(a, "QUJD"))
 		case k == 10:
 			ops = append(ops, rop{kind: 'd', known: false, seq: seq, payload: "QUJD", cls: "unknownsid"})
 		case k == 11 && !closed && rnd.Chance(1, 2):
 			closed = true
-			ops = append(ops, rop{kind: "cC"[rnd.Intn(2)]})
+			c := rop{kind: "cC"[rnd.Intn(2)]}
+			if c.kind == 'C' && rnd.Chance(2, 3) {
+				// the peer's packets in flight while Close waits for the answer
+				for k, m := 0, 1+rnd.Intn(3); k < m; k++ {
+					if rnd.Chance(1, 5) {
+						c.tail = append(c.tail, rop{kind: 'd', known: true, seq: seq, payload: []string{"REVG!!!!", "QUJ"}[rnd.Intn(2)], cls: "corrupt"})
+						continue
+					}
+					b := make([]byte, 1+rnd.Intn(6))
+					for j := range b {
+						b[j] = byte(rnd.Intn(256))
+					}
+					c.tail = append(c.tail, dgood(seq, b))
+					seq++
+				}
+			}
+			ops = append(ops, c)
 		case k == 14 && rnd.Chance(1, 2):
 			ops = append(ops, rop{kind: 'b', n: []int{0, 1, 3, 4, 6, 8, 12, 20, 40}[rnd.Intn(9)]})
 		case k == 15 && rnd.Chance(1, 3):
@@ -112,21 +164,54 @@ func randRecv(rnd *common.Rand) (int, []rop) {
 	return maxbuf, ops
 }
 
+// setCarrier marks every data packet of a history (also those in flight at a close).
+func setCarrier(ops []rop, msg bool) {
+	for i := range ops {
+		ops[i].msg = msg
+		if len(ops[i].tail) > 0 {
+			t := append([]rop(nil), ops[i].tail...)
+			for k := range t {
+				t[k].msg = msg
+			}
+			ops[i].tail = t
+		}
+	}
+}
+
 func parseRecvOps(f string) []rop {
 	var ops []rop
+	inTail := false
 	for _, t := range strings.Split(f, ",") {
 		p := strings.Split(t, ":")
 		switch p[0] {
 		case "d":
 			if len(p) == 4 {
-				seq, _ := strconv.Atoi(p[2])
+				seq, err := strconv.Atoi(p[2])
 				b, _ := common.UnHex(p[3])
-				ops = append(ops, rop{kind: 'd', known: p[1] == "1", seq: seq, payload: string(b), cls: "replay"})
+				o := rop{kind: 'd', known: p[1] == "1", seq: seq, payload: string(b), cls: "replay"}
+				if strings.HasPrefix(p[2], "x") {
+					a, _ := common.UnHex(p[2][1:])
+					o.attr, o.raw = string(a), true
+				} else if err != nil || seq > 65535 {
+					o.attr, o.raw = p[2], true
+				}
+				if inTail {
+					ops[len(ops)-1].tail = append(ops[len(ops)-1].tail, o)
+					continue
+				}
+				ops = append(ops, o)
 			}
 		case "b":
 			n, _ := strconv.Atoi(p[1])
 			ops = append(ops, rop{kind: 'b', n: n})
+		case "h":
+			ops = append(ops, rop{kind: 'C', tail: []rop{}})
+			inTail = true
 		case "c":
+			if inTail {
+				inTail = false
+				continue
+			}
 			ops = append(ops, rop{kind: 'c'})
 		case "r":
 			n, _ := strconv.Atoi(p[1])
@@ -233,9 +318,7 @@ func Run(r *common.Run) error {
 				mb, _ := strconv.Atoi(f[2])
 				for _, carrier := range []string{"iq", "message"} {
 					ops := parseRecvOps(f[3])
-					for i := range ops {
-						ops[i].msg = carrier == "message"
-					}
+					setCarrier(ops, carrier == "message")
 					runRecv(r, mb, carrier, ops, "replay")
 				}
 				runWake(r, false)
@@ -293,9 +376,7 @@ func Run(r *common.Run) error {
 			r.Mark("case recv-corpus %d", n)
 			n++
 			ops := append([]rop(nil), c.ops...)
-			for i := range ops {
-				ops[i].msg = carrier == "message"
-			}
+			setCarrier(ops, carrier == "message")
 			runRecv(r, c.maxbuf, carrier, ops, "recv-corpus")
 		}
 	}
@@ -378,9 +459,7 @@ func Run(r *common.Run) error {
 		r.Mark("case recv-random %d", i)
 		mb, ops := randRecv(r.Rnd)
 		carrier := []string{"iq", "message"}[r.Rnd.Intn(2)]
-		for k := range ops {
-			ops[k].msg = carrier == "message"
-		}
+		setCarrier(ops, carrier == "message")
 		runRecv(r, mb, carrier, ops, "recv-random")
 	}
 	nS := r.Pick(400, 6000)
